@@ -8,10 +8,15 @@
 // sends SIGINT or SIGTERM (some runs: no signal, the run ends by itself), waits for the exit, and
 // records
 //
-//	Start{run,kind,sig,after_ms,q}
+//	Start{run,kind,sig,after_ms,q,rps,inst,inst_total,pools,pipe,gomaxprocs}
 //	Signal{run,sig,returned_before}
-//	Exit{run,status,entered,returned,lines,malformed,last_complete,agg_returned,dropped,agg_err,wait_ms}
+//	Exit{run,status,forced,entered,returned,lines,malformed,last_complete,agg_returned,dropped,agg_err,wait_ms}
 //
+// Varied per run: phout / jsonlines (small queues: counted drops), SIGINT / SIGTERM / none, one or two
+// pools (own aggregator and result file each, shared counters), GOMAXPROCS of pandora, and the result
+// destination: a plain file, or a FIFO with a one-page buffer that the driver drains slowly (a slow sink:
+// the final flush then takes tens of milliseconds).  `forced` is taken from pandora's own log
+// ("timeout exceeded", "Another signal received").
 // `returned_before` is read BEFORE the signal is sent, so every one of those reports was made before
 // the stop; `entered` counts calls that had at least begun when the process exited.
 // The driver only RECORDS; TraceShutdown.tla decides.
